@@ -169,7 +169,7 @@ fn degree_inputs(k: i64) -> Vec<f64> {
 pub fn run(tier: &str) -> i32 {
     let rep = Report::new("C09", tier, "exploration");
     let thorough = rep.thorough();
-    rep.rule("(i) decode->encode over stored coordinate values v (six fields hold v+j*0x9E3779B1): quick |v|<=2^17, stride 4099, boundaries; thorough all 2^32; each decoded field must be bit-identical to the f64 nearest to v*1e-7 and the re-encoded bytes identical; (ii) degrees->stored for fl(k/1e7), fl((k+-1/2)/1e7), fl((k+1/4)/1e7) +-2ulp, both signs, dyadic ties; (ii') every subset of the numeric fields (and, thorough, of the flag/enum bytes) set to zero; (iii) one-hot and boundary values in each u64 field; (iv) every code 0..255 in enum/clustered/version bytes, magic perturbations; (v) every truncation 0..126 and trailing bytes; sync and async; non-trivial = distinct header images / distinct f64 inputs");
+    rep.rule("(i) decode->encode over stored coordinate values v (six fields hold v+j*0x9E3779B1): quick |v|<=2^17, stride 4099, boundaries; thorough all 2^32; each decoded field must be bit-identical to the f64 nearest to v*1e-7 and the re-encoded bytes identical; (ii) degrees->stored for fl(k/1e7), fl((k+-1/2)/1e7), fl((k+1/4)/1e7) +-2ulp, both signs, dyadic ties; (ii') every subset of the numeric fields (and, thorough, of the flag/enum bytes) set to zero; (iii) one-hot and boundary values in each u64 field; (iv) every code 0..255 in enum/clustered/version bytes, magic perturbations; (v) every truncation 0..126 and trailing bytes; sync and async (async also over sinks/sources that are Pending once per call and move at most 50 / 127 / 64 / 1 bytes); non-trivial = distinct header images / distinct f64 inputs");
     rep.assume("hand-written little-endian codec in harness/src/spec/header.rs is the trusted reference");
 
     // ---------------- (i) decode -> encode
@@ -311,6 +311,11 @@ pub fn run(tier: &str) -> i32 {
                 let sh = zero_pattern(*m);
                 if let Some((k, d)) = decode_encode(&sh.encode(), m % 64 == 0) {
                     return Some((*m, (format!("zero-pattern/{k}"), d)));
+                }
+                // the field-by-field comparison through all writers and readers (incl. the slow async ones) on every
+                // 8th pattern and on every pattern of at most three zero fields or at most three non-zero fields
+                if m % 8 != 0 && m.count_ones() > 3 && m.count_ones() < 17 {
+                    return None;
                 }
                 both_ways(&sh).into_iter().next().map(|(k, d)| (*m, (format!("zero-pattern/{k}"), d)))
             })
@@ -493,7 +498,7 @@ fn both_ways(s: &SHeader) -> Vec<(String, String)> {
     let mut bad = Vec::new();
     let want = s.encode();
     let Some(h) = lib_header_from(s) else { return bad };
-    for (api, o) in [("sync", header_write_sync(&h)), ("async", header_write_async(&h))] {
+    for (api, o) in [("sync", header_write_sync(&h)), ("async", header_write_async(&h)), ("async-slow-sink-50", header_write_async_slow(&h, 50)), ("async-slow-sink-127", header_write_async_slow(&h, 127))] {
         match o {
             Out::Ok(b) => {
                 if b.len() != 127 {
@@ -505,7 +510,7 @@ fn both_ways(s: &SHeader) -> Vec<(String, String)> {
             o => bad.push((format!("encode-{}/{api}", o.kind()), o.describe())),
         }
     }
-    for (api, o) in [("sync", header_read_sync(&want)), ("async", header_read_async(&want))] {
+    for (api, o) in [("sync", header_read_sync(&want)), ("async", header_read_async(&want)), ("async-slow-source-64", header_read_async_slow(&want, 64)), ("async-slow-source-1", header_read_async_slow(&want, 1))] {
         match o {
             Out::Ok((h2, used)) => {
                 let d = header_diff(&h2, s);
